@@ -6,6 +6,7 @@ import (
 	"go/build"
 	"go/token"
 	"os"
+	"sync"
 
 	"github.com/go-critic/go-critic/checkers/rulesdata"
 	"github.com/go-critic/go-critic/linter"
@@ -15,7 +16,21 @@ import (
 
 //go:generate go run ./rules/precompile.go -rules ./rules/rules.go -o ./rulesdata/rulesdata.go
 
+var (
+	embeddedRulesOnce sync.Once
+	errEmbeddedRules  error
+)
+
+// InitEmbeddedRules registers a checker for every embedded rules group.
+// Only the first call does the registration; later calls return its result.
 func InitEmbeddedRules() error {
+	embeddedRulesOnce.Do(func() {
+		errEmbeddedRules = initEmbeddedRules()
+	})
+	return errEmbeddedRules
+}
+
+func initEmbeddedRules() error {
 	filename := "rules/rules.go"
 
 	fset := token.NewFileSet()
